@@ -388,6 +388,8 @@ float64_t igris_atof64(const char *nptr, char **endptr)
     double val = 0.0;
     int d = 0;
     int sign = 1;
+    const char *start = nptr;
+    const char *mant;
 
     if (!nptr)
     {
@@ -403,6 +405,7 @@ float64_t igris_atof64(const char *nptr, char **endptr)
         nptr++;
         sign = -1;
     }
+    mant = nptr;
 
     while (*nptr >= '0' && *nptr <= '9')
     {
@@ -419,6 +422,16 @@ float64_t igris_atof64(const char *nptr, char **endptr)
             nptr++;
             d--;
         }
+    }
+
+    if (nptr == mant || (nptr == mant + 1 && *mant == '.'))
+    {
+        /* no digit at all ("-", ".", "+x"): not a number, nothing is consumed */
+        if (endptr)
+        {
+            *endptr = (char *)start;
+        }
+        return 0.0;
     }
 
     if (*nptr == 'E' || *nptr == 'e')
